@@ -192,7 +192,7 @@ PROPS["C03"] = {
 PROPS["C04"] = {
     "level": "fault_enumeration",
     "rule": ("bubble: C03's generator plus failing subsets (10% per node), fail-fast on/off, optional external cancel at a generated virtual time, mostly-zero latencies, 5% of cases with up to 4000 nodes; Walk must return (a hang is a synctest deadlock report), "
-             "completions only for selected nodes, and in keep-going mode without cancel every selected node is succeeded, failed or downstream of a failure. race: keep-going failure patterns on the real scheduler under -race (up to 3000 nodes), the returned completion map is iterated immediately like RunBuild does; stress: all patterns incl. fail-fast and cancel on the real scheduler without the race detector. "
+             "completions only for selected nodes, and in keep-going mode without cancel every selected node is succeeded, failed or downstream of a failure. race: keep-going failure patterns on the real scheduler under -race (up to 3000 nodes), the returned completion map is iterated immediately like RunBuild does; race-cancel: fail-fast and external cancel under -race with the walker alone (tasks behind a plain semaphore instead of grog's pool, whose shutdown closes a channel under concurrent sends on purpose). stress: all patterns incl. fail-fast and cancel on the real scheduler without the race detector. "
              "restore-faults: outputs (flat directory, generated trees, file outputs) cached through the real registry; for EVERY cache blob x {deleted, truncated, emptied}, up to 40 pairs of deletions and 'all deleted', LoadOutputs under a 30 s watchdog must return. "
              "Non-trivial = bubble/race: a selected failure with a selected dependant, or a cancel, or >=1000 zero-latency nodes; restore-faults: >=2 blobs; distinct by full case."),
     "assumptions": [
@@ -208,6 +208,9 @@ PROPS["C04"] = {
         {"name": "race", "pkg": "c04", "test": "TestRace", "race": True,
          "quick": {"shards": 4, "checks": 300, "cap": 900},
          "thorough": {"shards": 8, "checks": 4000, "cap": 7200}},
+        {"name": "race-cancel", "pkg": "c04", "test": "TestRaceCancel", "race": True,
+         "quick": {"shards": 4, "checks": 400, "cap": 900},
+         "thorough": {"shards": 8, "checks": 8000, "cap": 7200}},
         {"name": "stress", "pkg": "c04", "test": "TestStress",
          "quick": {"shards": 4, "checks": 600, "cap": 900},
          "thorough": {"shards": 8, "checks": 20000, "cap": 7200}},
